@@ -1,6 +1,6 @@
 (* Entry points evaluated by the correspondence harness (harness/c16.py). *)
 From Coq Require Import NArith List String Bool.
-From Verif Require Import Base.Chars Base.Show Livepatch.Heap Livepatch.Patch Livepatch.Xreload.
+From Verif Require Import Base.Chars Base.Show Livepatch.Heap Livepatch.Patch Livepatch.Xreload Livepatch.Wf.
 Import ListNotations.
 Open Scope string_scope.
 
@@ -19,6 +19,7 @@ Definition show_obj_ (o : obj) : string :=
   | OInst c d sl sv =>
       show_list (fun x => x) ["""inst"""; show_N c; show_optN d; show_option (show_list show_N) sl; show_kvs sv]
   | OMethod f s => show_list (fun x => x) ["""method"""; show_N f; show_N s]
+  | OCell v => show_list (fun x => x) ["""cell"""; show_N v]
   | OModule d => show_list (fun x => x) ["""module"""; show_N d]
   | OStatic f => show_list (fun x => x) ["""static"""; show_N f]
   | OClassM f => show_list (fun x => x) ["""classm"""; show_N f]
@@ -39,7 +40,7 @@ Definition run_xreload (h1 : heap) (reg : list (key * addr)) (name : key) (modul
                        (er_fail : option (nat * N)) (h0 : heap) : string :=
   let er := match er_fail with Some i => ExecFail (fst i) (snd i) h1 | None => ExecOk h1 end in
   let '(w, out) := xreload (pairs_ok bases) nm (S (List.length h1)) (mkW h0 reg) name module scratch k_loadtime mtime_obj er in
-  show_obj [("outcome", show_outcome out); ("heap", show_heap (wheap w)); ("registry", show_kvs (wreg w))].
+  show_obj [("wf", show_bool (wf_heap h1)); ("outcome", show_outcome out); ("heap", show_heap (wheap w)); ("registry", show_kvs (wreg w))].
 
 Definition run_decide (force : bool) (loadtime mtime : N) (cached_same : bool) : string :=
   match decide force loadtime mtime cached_same with
